@@ -214,7 +214,7 @@ PROPS = {
              'chrono (NaiveDate range, checked_add_months, default-format parsing/printing) is modelled by SlacModel/Time.lean on the canonical spellings only; other spellings/formats are skipped and counted'],
  ),
  'C17': dict(
-    modules=['SlacProps.C17'],
+    modules=['SlacProps.C17', 'SlacProps.C17Debug'],
     streams=[
         dict(name='call:str,float,int,bool,chr,ord,int_to_hex,even,odd,abs,round,trunc,frac,sqrt,exp,ln,sin,cos,arc_tan,pow', gen='call:str,float,int,bool,chr,ord,int_to_hex,even,odd,abs,round,trunc,frac,sqrt,exp,ln,sin,cos,arc_tan,pow', n=n(400, 20000), oracle='none', laws=['no_crash']),
         dict(name='num', n=n(60000, 2000000), oracle='none'),
